@@ -135,6 +135,16 @@ def correspondence(ctx):
         {'src': 'print("no newline", end="")\n', 'inputs': [], 'calls': []},
         {'src': 'x = [i * i for i in range(4)]\ny = {k: v for k, v in zip("ab", x)}\nt = tuple(x)\nprint(x, y, t, sep="|")\n', 'inputs': [], 'calls': []},
     ]
+    helper = {'helper.py': 'x = 5\ndef double(n):\n    return 2 * n\nprint("helper loaded")\n'}
+    multi = [
+        {'src': 'import helper\nprint(helper.x)\nprint(helper.double(4))\n', 'inputs': [], 'calls': [], 'files': helper},
+        {'src': 'from helper import double, x\ny = double(x)\nprint(y)\n', 'inputs': [], 'calls': [], 'files': helper},
+        {'src': 'import helper\nimport helper\ndef f(a):\n    return helper.double(a) + helper.x\n', 'inputs': [], 'calls': [['f', ['3']]], 'files': helper},
+        {'src': 'import helper as h\nvalue = h.double(h.x)\n1 / 0\n', 'inputs': [], 'calls': [], 'files': helper},
+    ]
+    fixed += multi
+    # every fixed program also with the time limit switched on (executed in a worker thread)
+    fixed += [dict(p, threaded=True) for p in fixed]
     progs += fixed
     for _ in range(120 if ctx.tier == 'quick' else 1500):
         g = cs1gen.CS1(rng)
@@ -142,7 +152,7 @@ def correspondence(ctx):
         calls = []
         for f, n in funcs[:2]:
             calls.append([f, [str(rng.choice([0, 1, 5, -2])) for _ in range(n)]])
-        progs.append({'src': src, 'inputs': inputs + ['1', '2'], 'calls': calls})
+        progs.append({'src': src, 'inputs': inputs + ['1', '2'], 'calls': calls, 'threaded': rng.random() < 0.25})
     res = vlib.run_impl('c06_impl.py', {'programs': progs}, timeout=2400)
     for p, r in zip(progs, res):
         kind = r['plain'].get('outcome', {}).get('kind')
@@ -157,7 +167,7 @@ def correspondence(ctx):
                 'SandboxVariable) through the real _make_temporary; (b) %d builtin names probed inside an execution; (c) differential '
                 'execution: generated deterministic CS1 programs (assignments, arithmetic, strings, lists/dicts, if/while/for, functions, '
                 'comprehensions, try/except, print with sep/end, input(), math) plus a fixed set (deep frames, classes, __name__, padded '
-                'inputs, output without newline), each run through pedal.sandbox.run and as __main__ in a fresh plain interpreter with the '
+                'inputs, output without newline, a student helper module imported by the main file), a quarter of them with the time limit on (worker thread), each run through pedal.sandbox.run and as __main__ in a fresh plain interpreter with the '
                 'same stdin; compared: stdout modulo prompt echo, student globals, outcome (exception class and line), and call() vs a '
                 'direct call. non-trivial = prints something or raises.' % (len(VALUES), len(NAMES)))
     ctx.notes.append('whole-program equivalence is differential testing, not a theorem')
